@@ -186,6 +186,7 @@ pub fn c09(rec: &mut Rec, lm: &Landmarks, rng: &mut Rng, thorough: bool) {
             }
             if k % 4 == 0 {
                 m.accessors();
+                m.doy();
             }
         }
     }
